@@ -52,7 +52,7 @@ def register(R):
             "lsum(result) >= total",
             "implies(minimums is None, lsum(result) == total)",
             "implies(minimums is None, all(result[i] >= 0 for i in range(len(result))))",
-            "implies(minimums is not None and len(minimums) > 0, all(implies(ratios[i] > 0 and minimums[i] != 0, result[i] >= minimums[i]) for i in range(len(result))))",
+            "implies(minimums is not None and len(minimums) > 0, all(result[i] >= minimums[i] for i in range(len(result))))",
         ],
         loops={
             0: Loop(
@@ -67,7 +67,7 @@ def register(R):
                     "implies(old(minimums) is None and i > 0 and total_ratio == 0, total_remaining == 0)",
                     "implies(i > 0 and total_ratio == 0, total_remaining <= 0)",
                     "implies(i == 0, total_ratio > 0)",
-                    "all(implies(ratios[j] > 0, distributed_total[j] >= _minimums[j]) for j in range(i))",
+                    "all(distributed_total[j] >= _minimums[j] for j in range(i))",
                     "all(ratios[j] >= 0 for j in range(len(ratios)))",
                 ],
             )
